@@ -168,7 +168,7 @@ func (d *drv) stopAuto(c string) string {
 func (d *drv) liveAutosUnder(n string) int {
 	k := 0
 	for c, a := range d.autos {
-		if a.live && (c == n || (d.home[c] != "S" && d.rootOf(d.home[c]) == n)) {
+		if a.live && (c == n || (d.home[c] != "S" && d.rootOf(d.home[c]) == n && d.linkUp(d.home[c]))) {
 			k++
 		}
 	}
